@@ -17,12 +17,12 @@ package cputensor
 //@   returns fresh
 //@   modifies genIdx(res)
 //@   ensures res != nil && genRank(res) == 2 && genShape(res)[0] == n && genShape(res)[1] == n && genIdx(res) == zeroIdx()
-//@   ensures forallJ(Q, genAt(res, Q) == boxReal(ite(Q[0] == Q[1], 1.0, 0.0)))
+//@   ensures forallJ(Q, genAt(res, Q) == boxReal(ite(Q[0] == Q[1], 1.0, 0.0))) && scalarGen(res)
 //@ func eyeElemGenerator#0
 //@   implements cputensor.initializerFunc
 //@   uses modDiag
 //@   modifies state
-//@   yields genRank(self) == 2 && genShape(self)[0] == n && genShape(self)[1] == n && forallJ(Q, genAt(self, Q) == boxReal(ite(Q[0] == Q[1], 1.0, 0.0)))
+//@   yields genRank(self) == 2 && genShape(self)[0] == n && genShape(self)[1] == n && forallJ(Q, genAt(self, Q) == boxReal(ite(Q[0] == Q[1], 1.0, 0.0))) && scalarGen(self)
 //@   invariant imp(genIdx(self)[0-1] == 0, state == genIdx(self)[0]*n + genIdx(self)[1])
 
 /* ---------------- cputensor_helpers.go ---------------- */
@@ -199,7 +199,7 @@ package cputensor
 //@ func CPUTensor.reduceDimUsingFunc
 //@   requires published(t) && 0 <= dim && dim < rank(t) && trf != nil && extT(trf)
 //@   uses dimsLink, filledWF, filledEl, wfExt
-//@   have genFloat(elemGen) && redShape(o, t, dim)
+//@   have genFloat(elemGen) && scalarGen(elemGen) && redShape(o, t, dim)
 //@   have forallJ(J, imp(inb(o, J), el(o, J) == fval(genAt(elemGen, mix(zeroIdx(), J, 0, rank(t) - 1)))))
 //@   have forallJ(J, imp(inb(o, J), sameTensor(fibre(t, dim, mix(zeroIdx(), J, 0, rank(t) - 1)), fibre(t, dim, J)))) @uses fibreDef
 //@   returns fresh
@@ -211,14 +211,14 @@ package cputensor
 //@   returns fresh
 //@   modifies genIdx(res)
 //@   ensures res != nil && genRank(res) == rank(t) - 1 && forall(k, 0, rank(t) - 1, genShape(res)[k] == dim(t, srcPos(k, dim))) && genIdx(res) == zeroIdx()
-//@   ensures forallJ(Q, genAt(res, Q) == mkF(appT(trf, fibre(t, dim, Q))))
+//@   ensures forallJ(Q, genAt(res, Q) == mkF(appT(trf, fibre(t, dim, Q)))) && scalarGen(res)
 //@   loop 0 invariant 0 <= i && i <= len(state) && len(state) == rank(t) && forall(k, 0, i, state[k].From == 0 && state[k].To == 1)
 //@   loop 0 decreases len(state) - i
 //@ func CPUTensor.linearElemGeneratorWithReducedDim#0
 //@   implements cputensor.initializerFunc
 //@   uses dimsLink, fibreDef
 //@   modifies state
-//@   yields genRank(self) == rank(t) - 1 && forall(k, 0, rank(t) - 1, genShape(self)[k] == dim(t, srcPos(k, dim))) && forallJ(Q, genAt(self, Q) == mkF(appT(trf, fibre(t, dim, Q))))
+//@   yields genRank(self) == rank(t) - 1 && forall(k, 0, rank(t) - 1, genShape(self)[k] == dim(t, srcPos(k, dim))) && forallJ(Q, genAt(self, Q) == mkF(appT(trf, fibre(t, dim, Q)))) && scalarGen(self)
 //@   invariant t != nil && published(t) && 0 <= dim && dim < rank(t) && trf != nil && extT(trf) && len(state) == rank(t)
 //@   invariant state[dim].From == 0 && state[dim].To == dim(t, dim)
 //@   invariant forall(k, 0, rank(t), imp(k != dim, 0 <= state[k].From && state[k].To == state[k].From + 1 && state[k].To <= dim(t, k)))
@@ -362,7 +362,7 @@ package cputensor
 //@ func CPUTensor.transpose
 //@   requires published(t) && rank(t) >= 2
 //@   uses dimsLink, filledWF, filledEl, wfExt
-//@   have genFloat(elemGen) && rank(o) == rank(t)
+//@   have genFloat(elemGen) && scalarGen(elemGen) && rank(o) == rank(t)
 //@   have forallJ(J, imp(inb(o, J), el(o, J) == fval(genAt(elemGen, mix(zeroIdx(), J, 0, rank(t))))))
 //@   have forallJ(J, imp(inb(o, J), el(o, J) == el(t, swap2(J, rank(t))))) @uses elSwapMix
 //@   returns fresh
@@ -379,12 +379,12 @@ package cputensor
 //@   modifies genIdx(res)
 //@   ensures res != nil && genRank(res) == rank(t) && genIdx(res) == zeroIdx()
 //@   ensures forall(k, 0, rank(t), genShape(res)[k] == dim(t, swapPos(k, rank(t))))
-//@   ensures forallJ(Q, genAt(res, Q) == mkF(el(t, swap2(Q, rank(t)))))
+//@   ensures forallJ(Q, genAt(res, Q) == mkF(el(t, swap2(Q, rank(t))))) && scalarGen(res)
 //@ func CPUTensor.transposeElemGenerator#0
 //@   implements cputensor.initializerFunc
 //@   uses dimsLink
 //@   modifies state
-//@   yields genRank(self) == rank(t) && forall(k, 0, rank(t), genShape(self)[k] == dim(t, swapPos(k, rank(t)))) && forallJ(Q, genAt(self, Q) == mkF(el(t, swap2(Q, rank(t)))))
+//@   yields genRank(self) == rank(t) && forall(k, 0, rank(t), genShape(self)[k] == dim(t, swapPos(k, rank(t)))) && forallJ(Q, genAt(self, Q) == mkF(el(t, swap2(Q, rank(t))))) && scalarGen(self)
 //@   invariant t != nil && published(t) && rank(t) >= 2
 //@   invariant len(state) == rank(t) && imp(genIdx(self)[0-1] == 0, forall(k, 0, rank(t), state[k] == genIdx(self)[swapPos(k, rank(t))]))
 //@   loop 0 invariant 0-1 <= i && i < rank(t) && len(state) == rank(t)
@@ -429,7 +429,7 @@ package cputensor
 //@   requires published(t) && forall(k, 0, len(shape), shape[k] > 0) && prod(shape, 0, len(shape)) == nelems(t)
 //@   callghost linearElemGenerator: S = idx(shape); n = len(shape)
 //@   uses dimsLink, filledWF, filledEl, wfExt
-//@   have genFloat(elemGen) && hasShape(o, shape) && nelems(o) == nelems(t)
+//@   have genFloat(elemGen) && scalarGen(elemGen) && hasShape(o, shape) && nelems(o) == nelems(t)
 //@   have forallJ(J, imp(inb(o, J), el(o, J) == fval(genAt(elemGen, mix(zeroIdx(), J, 0, len(shape))))))
 //@   have forallJ(J, imp(inb(o, J), el(o, J) == flat(t, val(upd(J, 0-1, 0), shp(o), rank(o))))) @uses valExt
 //@   have forall(p, 0, nelems(t), inb(o, unval(o, p)) && val(upd(unval(o, p), 0-1, 0), shp(o), rank(o)) == p) @uses unflatten
@@ -448,12 +448,12 @@ package cputensor
 //@   returns fresh
 //@   modifies genIdx(res)
 //@   ensures res != nil && genRank(res) == n && sameOn(genShape(res), S, 0, n) && genIdx(res) == zeroIdx()
-//@   ensures forallJ(Q, genAt(res, Q) == mkF(flat(t, val(Q, S, n))))
+//@   ensures forallJ(Q, genAt(res, Q) == mkF(flat(t, val(Q, S, n)))) && scalarGen(res)
 //@ func CPUTensor.linearElemGenerator#0
 //@   implements cputensor.initializerFunc
 //@   uses dimsLink, flatDef, valSucc, valBound, prodShp, valExt
 //@   modifies state
-//@   yields genRank(self) == n && genShape(self) == S && forallJ(Q, genAt(self, Q) == mkF(flat(t, val(Q, S, n))))
+//@   yields genRank(self) == n && genShape(self) == S && forallJ(Q, genAt(self, Q) == mkF(flat(t, val(Q, S, n)))) && scalarGen(self)
 //@   invariant t != nil && published(t) && len(state) == rank(t) && n >= 0 && forall(k, 0, n, S[k] >= 1) && prod(S, 0, n) == nelems(t)
 //@   invariant forall(k, 0, rank(t), 0 <= state[k] && state[k] < dim(t, k))
 //@   invariant imp(genIdx(self)[0-1] == 0, val(upd(idx(state), 0-1, 0), shp(t), rank(t)) == val(genIdx(self), S, n))
@@ -471,7 +471,7 @@ package cputensor
 //@ func CPUTensor.broadcast
 //@   requires published(t) && bcastOK(t, shape)
 //@   uses dimsLink, filledWF, filledEl, wfExt
-//@   have genFloat(elemGen) && hasShape(o, shape)
+//@   have genFloat(elemGen) && scalarGen(elemGen) && hasShape(o, shape)
 //@   have forallJ(J, imp(inb(o, J), el(o, J) == fval(genAt(elemGen, mix(zeroIdx(), J, 0, len(shape))))))
 //@   have forallJ(J, imp(inb(o, J), el(o, J) == el(t, projA(t, idx(shape), len(shape), J)))) @uses elProjMix
 //@   have forallJ(J, imp(inb(o, J), el(o, J) == el(t, proj(t, o, J)))) @uses elProjA
@@ -490,12 +490,12 @@ package cputensor
 //@   returns fresh
 //@   modifies genIdx(res)
 //@   ensures res != nil && genRank(res) == len(shape) && sameOn(genShape(res), idx(shape), 0, len(shape)) && genIdx(res) == zeroIdx()
-//@   ensures forallJ(Q, genAt(res, Q) == mkF(el(t, projA(t, idx(shape), len(shape), Q))))
+//@   ensures forallJ(Q, genAt(res, Q) == mkF(el(t, projA(t, idx(shape), len(shape), Q)))) && scalarGen(res)
 //@ func CPUTensor.broadcastElemGenerator#0
 //@   implements cputensor.initializerFunc
 //@   uses dimsLink
 //@   modifies state, repeat
-//@   yields genRank(self) == len(shape) && sameOn(genShape(self), idx(shape), 0, len(shape)) && forallJ(Q, genAt(self, Q) == mkF(el(t, projA(t, idx(shape), len(shape), Q))))
+//@   yields genRank(self) == len(shape) && sameOn(genShape(self), idx(shape), 0, len(shape)) && forallJ(Q, genAt(self, Q) == mkF(el(t, projA(t, idx(shape), len(shape), Q)))) && scalarGen(self)
 //@   invariant t != nil && published(t) && bcastOK(t, shape) && len(state) == rank(t) && len(repeat) == len(shape)
 //@   invariant imp(genIdx(self)[0-1] == 0, forall(jj, 0, len(shape), bcDigit(jj, genIdx(self))))
 //@   loop 0 invariant 0-1 <= j && j < len(shape) && len(state) == rank(t) && len(repeat) == len(shape) && i == ite(bcI(j) >= 0, bcI(j), 0-1)
@@ -562,12 +562,12 @@ package cputensor
 //@   returns fresh
 //@   modifies genIdx(res)
 //@   ensures res != nil && genRank(res) == rank(t1) - 1 && forall(k, 0, rank(t1) - 1, genShape(res)[k] == dim(t1, k)) && genIdx(res) == zeroIdx()
-//@   ensures forallJ(Q, genAt(res, Q) == mkF(dsum(t1, t2, Q)))
+//@   ensures forallJ(Q, genAt(res, Q) == mkF(dsum(t1, t2, Q))) && scalarGen(res)
 //@ func linearLastDimDotProductElemGenerator#0
 //@   implements cputensor.initializerFunc
 //@   uses dimsLink, dataLink
 //@   modifies state
-//@   yields genRank(self) == rank(t1) - 1 && forall(k, 0, rank(t1) - 1, genShape(self)[k] == dim(t1, k)) && forallJ(Q, genAt(self, Q) == mkF(dsum(t1, t2, Q)))
+//@   yields genRank(self) == rank(t1) - 1 && forall(k, 0, rank(t1) - 1, genShape(self)[k] == dim(t1, k)) && forallJ(Q, genAt(self, Q) == mkF(dsum(t1, t2, Q))) && scalarGen(self)
 //@   invariant t1 != nil && t2 != nil && published(t1) && published(t2) && sameShape(t1, t2) && rank(t1) >= 1 && n == rank(t1) - 1 && len(state) == n
 //@   invariant len(dims) == rank(t1) && forall(k, 0, rank(t1), dims[k] == dim(t1, k))
 //@   invariant imp(genIdx(self)[0-1] == 0, forall(k, 0, n, state[k] == genIdx(self)[k]))
@@ -586,16 +586,84 @@ package cputensor
 //@ func CPUTensor.dot
 //@   requires published(t) && u != nil && published(u) && sameShape(t, u) && rank(t) >= 1
 //@   uses dimsLink, filledWF, filledEl, wfExt
-//@   have genFloat(elemGen) && rank(o) == rank(t) - 1
+//@   have genFloat(elemGen) && scalarGen(elemGen) && rank(o) == rank(t) - 1
 //@   have forallJ(J, imp(inb(o, J), el(o, J) == fval(genAt(elemGen, mix(zeroIdx(), J, 0, rank(t) - 1)))))
 //@   have forallJ(J, imp(inb(o, J), el(o, J) == dsum(t, u, J))) @uses dsumMix
 //@   returns fresh
 //@   ensures o != nil && rank(o) == rank(t) - 1 && forall(k, 0, rank(o), dim(o, k) == dim(t, k))
 //@   ensures forallJ(J, imp(inb(o, J), el(o, J) == dsum(t, u, J)))
 
+// matMul: msum is *defined* by partial sums along the contracted dimension (axioms msumKDef / msumDef, handed only to
+// the units that unfold them); the generator yields one m x k matrix of float64 leaves per batch index.
+//@ axiom msumKDef: forallT(p, forallT(q, forallJ(J, forallI(k, msumK(p, q, J, k) == ite(k <= 0, 0.0, msumK(p, q, J, k-1) + el(p, upd(J, rank(p) - 1, k-1)) * el(q, upd(J, rank(p) - 2, k-1)))))))
+//@ axiom msumDef: forallT(p, forallT(q, forallJ(J, msum(p, q, J) == msumK(p, q, J, dim(p, rank(p) - 1)))))
+//@ predicate Mat(d Data, r Int, c Int) := isS(d) && slen(d) == r && forall(i, 0, r, isS(child(d, i)) && slen(child(d, i)) == c && forall(j, 0, c, isF(child(child(d, i), j))))
+
+//@ func matMulDataOf2DInputs
+//@   requires slen(a) >= 1 && slen(b) >= 1 && isS(a) && isS(b) && isS(child(a, 0)) && isS(child(b, 0))
+//@   requires Mat(a, slen(a), slen(child(a, 0))) && Mat(b, slen(b), slen(child(b, 0))) && slen(child(a, 0)) == slen(b)
+//@   ensures Mat(c, slen(a), slen(child(b, 0)))
+//@   ensures forall(i2, 0, slen(a), forall(j2, 0, slen(child(b, 0)), fval(child(child(c, i2), j2)) == dataMM(a, b, i2, j2, slen(b))))
+//@   loop 0 invariant 0 <= i && i <= m && len(cRows) == m
+//@   loop 0 invariant forall(i2, 0, i, isS(cRows[i2]) && slen(cRows[i2]) == k && forall(j2, 0, k, isF(child(cRows[i2], j2)) && fval(child(cRows[i2], j2)) == dataMM(a, b, i2, j2, n)))
+//@   loop 0 decreases m - i
+//@   loop 1 invariant 0 <= j && j <= k && len(row) == k && forall(j2, 0, j, isF(row[j2]) && fval(row[j2]) == dataMM(a, b, i, j2, n))
+//@   loop 1 decreases k - j
+//@   loop 2 invariant 0 <= p && p <= n && eij == dataMM(a, b, i, j, p)
+//@   loop 2 decreases n - p
+
+//@ define mmOK(t1, t2) := t1 != nil && t2 != nil && published(t1) && published(t2) && rank(t1) >= 2 && rank(t2) == rank(t1) && forall(k, 0, rank(t1) - 2, dim(t1, k) == dim(t2, k)) && dim(t1, rank(t1) - 1) == dim(t2, rank(t1) - 2)
+// the leaf the matMul generator yields at batch index Q: an m x k matrix whose (i, j) entry is msum at Q.i.j
+//@ define matLeaf(v, t1, t2, Q) := Mat(v, dim(t1, rank(t1) - 2), dim(t2, rank(t1) - 1)) && forall(i, 0, dim(t1, rank(t1) - 2), forall(j, 0, dim(t2, rank(t1) - 1),
+//@              fval(child(child(v, i), j)) == msum(t1, t2, upd(upd(Q, rank(t1) - 2, i), rank(t1) - 1, j))))
+//@ define dataMMElBody(k) := forallT(t, forallT(u, forallD(a, forallD(b, forallJ(K, forallI(i, forallI(j, imp(forall(r, 0, k, fval(child(child(a, i), r)) == el(t, upd(K, rank(t) - 1, r))
+//@              && fval(child(child(b, r), j)) == el(u, upd(K, rank(t) - 2, r))), dataMM(a, b, i, j, k) == msumK(t, u, K, k)))))))))
+//@ induct dataMMEl: up dataMMElBody @uses msumKDef
+
+//@ func linearLast2DimsMatMulElemGenerator
+//@   requires mmOK(t1, t2)
+//@   uses dimsLink
+//@   returns fresh
+//@   modifies genIdx(res)
+//@   ensures res != nil && genRank(res) == rank(t1) - 2 && forall(k, 0, rank(t1) - 2, genShape(res)[k] == dim(t1, k)) && genIdx(res) == zeroIdx()
+//@   ensures forallJ(Q, forallD(v, genRel(res, Q, v) == matLeaf(v, t1, t2, Q)))
+//@ func linearLast2DimsMatMulElemGenerator#0
+//@   implements cputensor.initializerFunc
+//@   uses dimsLink, dataLink
+//@   modifies state
+//@   yields genRank(self) == rank(t1) - 2 && forall(k, 0, rank(t1) - 2, genShape(self)[k] == dim(t1, k)) && forallJ(Q, forallD(v, genRel(self, Q, v) == matLeaf(v, t1, t2, Q)))
+//@   invariant mmOK(t1, t2) && n == rank(t1) - 2 && len(state) == n
+//@   invariant len(dims) == rank(t1) && forall(k, 0, rank(t1), dims[k] == dim(t1, k))
+//@   invariant imp(genIdx(self)[0-1] == 0, forall(k, 0, n, state[k] == genIdx(self)[k]))
+//@   loop 0 invariant 0-1 <= i && i < n && len(state) == n
+//@   loop 0 invariant forall(k, 0, n, imp(k > i, old(state[k]) == dims[k] - 1 && state[k] == 0))
+//@   loop 0 invariant forall(k, 0, n, imp(k <= i, state[k] == old(state[k])))
+//@   loop 0 decreases i + 1
+//@   have isS(data1) && isS(data2) && slen(data1) == dim(t1, n) && slen(data2) == dim(t2, n) && slen(data1) >= 1 && slen(data2) >= 1
+//@   have forall(i2, 0, dim(t1, n), isS(child(data1, i2)) && slen(child(data1, i2)) == dim(t1, n + 1) && forall(q, 0, dim(t1, n + 1), isF(child(child(data1, i2), q))))
+//@   have forall(i2, 0, dim(t2, n), isS(child(data2, i2)) && slen(child(data2, i2)) == dim(t2, n + 1) && forall(q, 0, dim(t2, n + 1), isF(child(child(data2, i2), q))))
+//@   have Mat(data1, dim(t1, n), dim(t1, n + 1)) && Mat(data2, dim(t2, n), dim(t2, n + 1))
+//@   have forall(i2, 0, dim(t1, n), forall(q, 0, dim(t1, n + 1), fval(child(child(data1, i2), q)) == leafv(data1, upd(upd(old(genIdx(self)), n, i2), n + 1, q), n)))
+//@   have forall(i2, 0, dim(t2, n), forall(q, 0, dim(t2, n + 1), fval(child(child(data2, i2), q)) == leafv(data2, upd(upd(old(genIdx(self)), n, i2), n + 1, q), n)))
+//@   have forall(i2, 0, dim(t1, n), forall(q, 0, dim(t1, n + 1), fval(child(child(data1, i2), q)) == el(t1, upd(upd(old(genIdx(self)), n, i2), n + 1, q))))
+//@   have forall(i2, 0, dim(t2, n), forall(q, 0, dim(t2, n + 1), fval(child(child(data2, i2), q)) == el(t2, upd(upd(old(genIdx(self)), n, i2), n + 1, q))))
+//@   have forall(i2, 0, dim(t1, n), forall(j2, 0, dim(t2, n + 1), dataMM(data1, data2, i2, j2, dim(t2, n)) == msumK(t1, t2, upd(upd(old(genIdx(self)), n, i2), n + 1, j2), dim(t2, n)))) @uses dataMMEl
+//@   have forall(i2, 0, dim(t1, n), forall(j2, 0, dim(t2, n + 1), fval(child(child(mulRes, i2), j2)) == msum(t1, t2, upd(upd(old(genIdx(self)), n, i2), n + 1, j2)))) @uses msumDef
+//@   have matLeaf(mulRes, t1, t2, old(genIdx(self)))
+
+// msum depends on the index only through its first rank(p) coordinates
+//@ define msumKExtBody(k) := forallT(p, forallT(q, forallJ(J, forallJ(K, imp(rank(q) == rank(p) && rank(p) >= 2 && sameOn(J, K, 0, rank(p)), msumK(p, q, J, k) == msumK(p, q, K, k))))))
+//@ induct msumKExt: up msumKExtBody @uses msumKDef
+//@ lemma msumExt: forallT(p, forallT(q, forallJ(J, forallJ(K, imp(rank(q) == rank(p) && rank(p) >= 2 && sameOn(J, K, 0, rank(p)), msum(p, q, J) == msum(p, q, K)))))) @uses msumKExt, msumDef
+//@ lemma matWF: forallD(v, forallJ(A, forallI(lo, forallI(r, forallI(c, imp(Mat(v, r, c) && A[lo] == r && A[lo+1] == c, WF(v, A, lo, lo + 2)))))))
+
 //@ func CPUTensor.matMul
-//@   requires u != nil && rank(t) >= 2 && rank(u) == rank(t) && forall(k, 0, rank(t)-2, dim(t, k) == dim(u, k)) && dim(t, rank(t)-1) == dim(u, rank(u)-2)
-//@   assumed L2 batch generator + matMulDataOf2DInputs; bounded stand-in: rac TestLinalg
+//@   requires mmOK(t, u)
+//@   uses dimsLink, wfExt, filledWF2
+//@   have leafWF(elemGen, arrOf(o.dims), len(t.dims) - 2, len(t.dims)) @early @uses matWF
+//@   have rank(o) == rank(t) && forall(k, 0, rank(t)-2, dim(o, k) == dim(t, k)) && dim(o, rank(t)-2) == dim(t, rank(t)-2) && dim(o, rank(t)-1) == dim(u, rank(u)-1)
+//@   have forallJ(J, imp(inb(o, J), leafIs(elemGen, mix(zeroIdx(), J, 0, rank(t) - 2), J, rank(t) - 2, msum(t, u, J)))) @uses msumExt
+//@   have forallJ(J, imp(inb(o, J), leafv(o.data, J, 0) == msum(t, u, J))) @uses filledEl2
 //@   returns fresh
 //@   ensures o != nil && rank(o) == rank(t) && forall(k, 0, rank(t)-2, dim(o, k) == dim(t, k)) && dim(o, rank(t)-2) == dim(t, rank(t)-2) && dim(o, rank(t)-1) == dim(u, rank(u)-1)
 //@   ensures forallJ(J, imp(inb(o, J), el(o, J) == msum(t, u, J)))
@@ -615,7 +683,7 @@ package cputensor
 // the constant generator: every element is value, over the enumeration shape dims
 //@ func constTensor#0
 //@   implements cputensor.initializerFunc
-//@   yields genRank(self) == len(dims) && sameOn(genShape(self), idx(dims), 0, len(dims)) && forallJ(Q, genAt(self, Q) == boxReal(value))
+//@   yields genRank(self) == len(dims) && sameOn(genShape(self), idx(dims), 0, len(dims)) && forallJ(Q, genAt(self, Q) == boxReal(value)) && scalarGen(self)
 
 //@ func eyeMatrix
 //@   requires n > 0
@@ -623,17 +691,39 @@ package cputensor
 //@   returns fresh
 //@   ensures t != nil && rank(t) == 2 && dim(t, 0) == n && dim(t, 1) == n && forallJ(J, imp(inb(t, J), el(t, J) == ite(J[0] == J[1], 1.0, 0.0)))
 
+// Random tensors. drawnU / drawnN are *defined*: every element is a value returned by a call of the named gonum
+// distribution (isDrawU / isDrawN; that the draws are independent samples of the law is the assumption about gonum).
+// A drawing generator is not a function of the index: its protocol relation genRel admits any draw.
+//@ axiom drawnUDef: forallT(t, forallR(a, forallR(b, drawnU(t, a, b) == forallJ(J, imp(inb(t, J), isDrawU(el(t, J), a, b))))))
+//@ axiom drawnNDef: forallT(t, forallR(a, forallR(b, drawnN(t, a, b) == forallJ(J, imp(inb(t, J), isDrawN(el(t, J), a, b))))))
+//@ predicate genDrawsU(f Fn, a Real, b Real) := forallJ(Q, forallD(v, imp(genRel(f, Q, v), isF(v) && isDrawU(fval(v), a, b))))
+//@ predicate genDrawsN(f Fn, a Real, b Real) := forallJ(Q, forallD(v, imp(genRel(f, Q, v), isF(v) && isDrawN(fval(v), a, b))))
+//@ define filledDrawUBody(lo, hi) := forallF(f, forallD(d, forallJ(S, forallJ(P, forallJ(J, forallR(a, forallR(b, imp(0 <= lo && Filled(f, d, S, lo, hi, P) && inRange(J, S, lo, hi) && genDrawsU(f, a, b), isDrawU(leafv(d, J, lo), a, b)))))))))
+//@ induct filledDrawU: filledDrawUBody
+//@ define filledDrawNBody(lo, hi) := forallF(f, forallD(d, forallJ(S, forallJ(P, forallJ(J, forallR(a, forallR(b, imp(0 <= lo && Filled(f, d, S, lo, hi, P) && inRange(J, S, lo, hi) && genDrawsN(f, a, b), isDrawN(leafv(d, J, lo), a, b)))))))))
+//@ induct filledDrawN: filledDrawNBody
+
 //@ func uniformRandomTensor
 //@   requires l < u && forall(k, 0, len(dims), dims[k] > 0)
-//@   assumed L2 initWith.fill with a drawing generator; gonum distuv (external); bounded stand-in: rac TestRandom
+//@   uses filledWF2, wfExt
+//@   have forallJ(J, imp(inb(t, J), isDrawU(el(t, J), l, u))) @uses filledDrawU
+//@   have drawnU(t, l, u) @uses drawnUDef
 //@   returns fresh
 //@   ensures t != nil && hasShape(t, dims) && forallJ(J, imp(inb(t, J), l <= el(t, J) && el(t, J) < u)) && drawnU(t, l, u)
+//@ func uniformRandomTensor#0
+//@   implements cputensor.initializerFunc
+//@   yields genRank(self) == len(dims) && sameOn(genShape(self), idx(dims), 0, len(dims)) && forallJ(Q, forallD(v, genRel(self, Q, v) == (isF(v) && isDrawU(fval(v), l, u))))
 
 //@ func normalRandomTensor
 //@   requires s > 0 && forall(k, 0, len(dims), dims[k] > 0)
-//@   assumed L2 initWith.fill with a drawing generator; gonum distuv (external); bounded stand-in: rac TestRandom
+//@   uses filledWF2, wfExt
+//@   have forallJ(J, imp(inb(t, J), isDrawN(el(t, J), u, s))) @uses filledDrawN
+//@   have drawnN(t, u, s) @uses drawnNDef
 //@   returns fresh
 //@   ensures t != nil && hasShape(t, dims) && drawnN(t, u, s)
+//@ func normalRandomTensor#0
+//@   implements cputensor.initializerFunc
+//@   yields genRank(self) == len(dims) && sameOn(genShape(self), idx(dims), 0, len(dims)) && forallJ(Q, forallD(v, genRel(self, Q, v) == (isF(v) && isDrawN(fval(v), u, s))))
 
 /* ---------------- cputensor_helpers.go ---------------- */
 
@@ -829,8 +919,8 @@ package cputensor
 //@ predicate allMax(J Idx, S Idx, j Int, k Int) := forall(m, j+1, k, J[m] == S[m] - 1)
 //@ predicate odoK(A Idx, B Idx, S Idx, k Int) := forall(j, 0-1, k, B[j] == ite(allMax(A, S, j, k), ite(j >= 0 && A[j] >= S[j] - 1, 0, A[j] + 1), A[j]))
 // Filled(f, d, S, k, n, P): the sub-tree d at level k, reached by the path P[0..k), holds at every leaf path Q the
-// element genAt(f, Q) of the generator f
-//@ predicate Filled(f Fn, d Data, S Idx, k Int, n Int, P Idx) := ite(k >= n, d == genAt(f, P), isS(d) && slen(d) == S[k] && forall(i, 0, S[k], Filled(f, child(d, i), S, k+1, n, upd(P, k, i))))
+// element genAt(f, Q) of the generator f (in general: an element related to Q by genRel)
+//@ predicate Filled(f Fn, d Data, S Idx, k Int, n Int, P Idx) := ite(k >= n, genRel(f, P, d), isS(d) && slen(d) == S[k] && forall(i, 0, S[k], Filled(f, child(d, i), S, k+1, n, upd(P, k, i))))
 
 // The protocol of an element generator: every generator f has a ghost abstract index genIdx(f), which starts at 0 where the
 // closure is created. Called at index J it returns the element genAt(f, J); the index then advances to its odometer
@@ -838,7 +928,7 @@ package cputensor
 //@ abstract initializerFunc() (v any)
 //@   modifies genIdx(self)
 //@   requires genIdx(self)[0-1] == 0 && validUpTo(genIdx(self), genShape(self), genRank(self))
-//@   ensures v == genAt(self, old(genIdx(self)))
+//@   ensures genRel(self, old(genIdx(self)), v)
 //@   ensures odoK(old(genIdx(self)), genIdx(self), genShape(self), genRank(self)) && sameOutside(old(genIdx(self)), genIdx(self), genRank(self)) @ghost
 
 // fill at level k = offOf(dims): on entry the generator stands at a path prefix followed by zeros; on exit the sub-tree is
@@ -867,11 +957,22 @@ package cputensor
 
 // every element a generator yields is a float64
 //@ predicate genFloat(f Fn) := forallJ(Q, isF(genAt(f, Q)))
+// a scalar generator yields exactly one value per index: genAt
+//@ predicate scalarGen(f Fn) := forallJ(Q, forallD(v, genRel(f, Q, v) == (v == genAt(f, Q))))
 // a filled tree is well-formed, and its leaf at J is the generator's element at J (induction over the nesting depth)
-//@ define filledWFBody(lo, hi) := forallF(f, forallD(d, forallJ(S, forallJ(P, imp(0 <= lo && Filled(f, d, S, lo, hi, P) && genFloat(f), WF(d, S, lo, hi))))))
+//@ define filledWFBody(lo, hi) := forallF(f, forallD(d, forallJ(S, forallJ(P, imp(0 <= lo && Filled(f, d, S, lo, hi, P) && genFloat(f) && scalarGen(f), WF(d, S, lo, hi))))))
 //@ induct filledWF: filledWFBody
-//@ define filledElBody(lo, hi) := forallF(f, forallD(d, forallJ(S, forallJ(P, forallJ(J, imp(0 <= lo && Filled(f, d, S, lo, hi, P) && genFloat(f) && inRange(J, S, lo, hi), leafv(d, J, lo) == fval(genAt(f, mix(P, J, lo, hi)))))))))
+//@ define filledElBody(lo, hi) := forallF(f, forallD(d, forallJ(S, forallJ(P, forallJ(J, imp(0 <= lo && Filled(f, d, S, lo, hi, P) && genFloat(f) && scalarGen(f) && inRange(J, S, lo, hi), leafv(d, J, lo) == fval(genAt(f, mix(P, J, lo, hi)))))))))
 //@ induct filledEl: filledElBody
+// generators whose elements are whole sub-trees (matMul: one matrix per batch index): the filled tree is well-formed down
+// to the leaves of the elements, and its leaf at J is the leaf at J of the element yielded at J's prefix
+//@ predicate leafWF(f Fn, A Idx, hi Int, h2 Int) := forallJ(Q, forallD(v, imp(genRel(f, Q, v), WF(v, A, hi, h2))))
+//@ predicate leafIs(f Fn, Q Idx, J Idx, hi Int, x Real) := forallD(v, imp(genRel(f, Q, v), leafv(v, J, hi) == x))
+//@ define filledWF2Body(lo, hi) := forallF(f, forallD(d, forallJ(S, forallJ(P, forallJ(A, forallI(h2, imp(0 <= lo && hi <= h2 && Filled(f, d, S, lo, hi, P) && leafWF(f, A, hi, h2) && sameOn(S, A, lo, hi), WF(d, A, lo, h2))))))))
+//@ induct filledWF2: filledWF2Body
+//@ lemma mixStep: forallJ(P, forallJ(J, forallI(lo, forallI(hi, imp(lo < hi, mix(upd(P, lo, J[lo]), J, lo + 1, hi) == mix(P, J, lo, hi))))))
+//@ define filledEl2Body(lo, hi) := forallF(f, forallD(d, forallJ(S, forallJ(P, forallJ(J, forallR(x, imp(0 <= lo && Filled(f, d, S, lo, hi, P) && inRange(J, S, lo, hi) && leafIs(f, mix(P, J, lo, hi), J, hi, x), leafv(d, J, lo) == x)))))))
+//@ induct filledEl2: filledEl2Body @uses mixStep
 
 // which element of t a position of the broadcast result reads depends on the result only through its shape
 //@ lemma projSame: forallT(t, forallT(p, forallT(q, forallJ(J, imp(sameShape(p, q) && rank(t) <= rank(p), el(t, proj(t, p, J)) == el(t, proj(t, q, J)))))))
